@@ -19,7 +19,7 @@ Others(U) == {V \in AllKV : Limits(V) = Limits(U) /\ (Rich \/ Npts(V) <= 4)}
 
 NodePool(U) == KnotSet(U) \cup Midpoints(U) \cup Outside(U)
 
-MCArgs(name, h) ==
+MCArgs(name, h, dep) ==
   LET o == h["a"] IN
   IF o.kind = "none" THEN
      IF name = "KvNew"
